@@ -134,6 +134,9 @@ func runC01(c C01Case, cs *kit.CaseStats) error {
 				}
 			}
 		}
+		if p := nodes[0].Parent; p != nil && p.Corrupt == "timestamp-future" && !inBatch[p.ID] && node.Submitted[p.ID] {
+			cs.Class("child-of-a-refused-future-block-submitted-alone")
+		}
 		var err error
 		if validated {
 			cs.Class("call=AddValidatedV2Blocks")
